@@ -175,7 +175,7 @@ EXPORT char *_stpncpy_s_chk(char *restrict dest, rsize_t dmax,
         BND_CHK_PTR_BOUNDS(src, slen);
     } else if (unlikely(slen > srcbos)) {
         *errp = handle_str_bos_overflow("stpncpy_s: slen exceeds src", dest,
-                                       destbos);
+                                       dmax);
         return NULL;
     }
 
